@@ -600,6 +600,44 @@ func checkKeyset(c *Ctx, r *Rep, hk string, h *ssa.Function, sel *Stmt) {
 	}
 	walk(h, 0)
 	r.Check("C12.5", "C12.5:next-token@"+hk, sel.Pos, okNext, "next token = id of the last scanned row iff a full page was scanned", why)
+	// the scanned rows keep the order of the scan (ORDER BY id) until the token is taken: sorting them in place, or
+	// writing into the slice, makes rows[len-1] something other than the greatest id scanned, and the next page
+	// (id > token) repeats or skips rows
+	reordered := token.NoPos
+	var scan func(f *ssa.Function)
+	scan = func(f *ssa.Function) {
+		for _, b := range f.Blocks {
+			for _, in := range b.Instrs {
+				switch x := in.(type) {
+				case *ssa.Call:
+					cal := x.Call.StaticCallee()
+					if cal == nil {
+						continue
+					}
+					name := cal.Name()
+					if o := cal.Origin(); o != nil {
+						name = o.Name()
+					}
+					if pk := fnPkgPath(cal); (pk == "sort" || pk == "slices") && (strings.HasPrefix(name, "Sort") || strings.HasPrefix(name, "Slice") || strings.HasPrefix(name, "Stable") || name == "Reverse") {
+						for _, a := range x.Call.Args {
+							if isResultOf(strip(a), term) {
+								reordered = x.Pos()
+							}
+						}
+					}
+				case *ssa.Store:
+					if ia, ok := x.Addr.(*ssa.IndexAddr); ok && isResultOf(ia.X, term) {
+						reordered = x.Pos()
+					}
+				}
+			}
+		}
+		for _, a := range f.AnonFuncs {
+			scan(a)
+		}
+	}
+	scan(term.Parent())
+	r.Check("C12.5", "C12.5:scan-order-kept@"+hk, reordered, !reordered.IsValid(), "the scanned rows are not reordered before the token is taken", "the scanned rows are sorted or overwritten in place before the page token is taken from the last one: the token is no longer the greatest id scanned and the next page repeats or skips rows")
 }
 
 // tokenPresentVerdict: v is a boolean result of a private helper that was given the request's page token, and the
